@@ -96,6 +96,7 @@ class World:
         self.conns: list[VC] = []
         self.fd2vc = {}
         self.fd2c = {}
+        self.msg_conn = {}
         self.npc = 0                # PeerConnection objects created so far
         _install_pc_wrapper(self.ns)
         _CUR[0] = self
@@ -120,6 +121,7 @@ class World:
         n._add_peer_connection = add
 
         def recv(conn, msg):
+            w.msg_conn[id(msg)] = (w.c_of(conn), msg)      # (keeps msg alive: ids are not reused)
             w.s.emit("dispatch", c=w.c_of(conn), m=abs_from_msg(msg))
             return orig_recv(conn, msg)
         n._receive_message = recv
@@ -329,7 +331,7 @@ def make_app(world, a):
             self.mode = a["handler"]
 
         def handle_request(self, message):
-            w.s.emit("app_req", a=self.vname, m=abs_from_msg(message))
+            w.s.emit("app_req", a=self.vname, c=w.msg_conn.get(id(message), (0, None))[0], m=abs_from_msg(message))
             self.inbox.append(message)
             mode = self.mode
             if callable(mode):
